@@ -7,6 +7,7 @@ package harness
 import (
 	"context"
 	"encoding/binary"
+	"errors"
 	"fmt"
 	"net"
 	"net/netip"
@@ -32,16 +33,26 @@ type rawItem struct {
 
 // rawSink is only ever touched by the goroutine that sends.
 type rawSink struct {
-	sent   [][]byte
-	callAt []time.Time           // instant WriteTo was entered, per write
-	stalls map[int]time.Duration // write index -> how long that write blocks (a full send buffer, a slow device)
+	sent      [][]byte
+	callAt    []time.Time           // instant WriteTo was entered, per write
+	stalls    map[int]time.Duration // write index -> how long that write blocks (a full send buffer, a slow device)
+	failAt    int                   // 1-based index of the write that fails (0 = none), after blocking for failStall
+	failStall time.Duration
 }
+
+var errRawWrite = errors.New("write: no buffer space available")
 
 func (s *rawSink) WriteTo(buf []byte, _ netip.AddrPort) error {
 	s.callAt = append(s.callAt, time.Now())
 	s.sent = append(s.sent, append([]byte(nil), buf...))
 	if d := s.stalls[len(s.sent)-1]; d > 0 {
 		time.Sleep(d)
+	}
+	if s.failAt > 0 && len(s.sent) == s.failAt {
+		if s.failStall > 0 {
+			time.Sleep(s.failStall)
+		}
+		return errRawWrite
 	}
 	return nil
 }
@@ -118,6 +129,11 @@ type c14Case struct {
 	Dups      []int   `json:"dups"`       // TTL indices that get a stale duplicate at t0
 	RealTime  bool    `json:"real_time"`
 	Port      int     `json:"port"`
+	// FailWrite: the k-th probe write (1-based, 0 = none) fails after blocking for FailStallUs, while duplicates of
+	// the first probe's reply keep arriving around that instant (the error path of the sender runs while the
+	// receiver is matching replies)
+	FailWrite   int   `json:"fail_write,omitempty"`
+	FailStallUs int64 `json:"fail_stall_us,omitempty"`
 }
 
 func synthQuote(kind string, v6 bool, local, target netip.Addr, lport, tport uint16, echoID uint16, ttl int, isn uint32) []byte {
@@ -215,6 +231,16 @@ func runC14x(t *testing.T, c *c14Case, stalls map[int]time.Duration) (err error,
 			q := synthQuote(kind, v6, local, target, lport, tport, echo, ttl, c.ISN)
 			items = append(items, rawItem{at, icmpError(routerAddr(v6, "", 0, ttl), local, FormSpec{}, quoteOf(q, FormSpec{}))})
 		}
+		if c.FailWrite > 0 {
+			base := time.Duration(c.FailWrite-1) * delay
+			stall := time.Duration(c.FailStallUs) * time.Microsecond
+			q := synthQuote(kind, v6, local, target, lport, tport, echo, c.MinTTL, c.ISN)
+			for _, off := range []time.Duration{-100 * time.Microsecond, 0, 50 * time.Microsecond, stall / 2, stall, stall + 100*time.Microsecond} {
+				if at := base + off; at >= 0 {
+					items = append(items, rawItem{at, icmpError(routerAddr(v6, "", 0, c.MinTTL), local, FormSpec{}, quoteOf(q, FormSpec{}))})
+				}
+			}
+		}
 		// sort by time (stable)
 		for i := 1; i < len(items); i++ {
 			for j := i; j > 0 && items[j].at < items[j-1].at; j-- {
@@ -223,7 +249,7 @@ func runC14x(t *testing.T, c *c14Case, stalls map[int]time.Duration) (err error,
 		}
 		return items
 	}
-	sink := &rawSink{stalls: stalls}
+	sink := &rawSink{stalls: stalls, failAt: c.FailWrite, failStall: time.Duration(c.FailStallUs) * time.Microsecond}
 	src := &rawSource{}
 	if c.Variant == "sack" {
 		src.onStage = func(int) [][]rawItem {
@@ -290,6 +316,10 @@ func genC14(rt *rapid.T) *c14Case {
 		// before / at / just after the send instant of the probe it answers
 		c.Offsets = append(c.Offsets, oneOf(rt, fmt.Sprintf("off%d", ttl), int64(-3000), -500, -1, 0, 0, 1, 50, 700))
 	}
+	if oneOf(rt, "write_fails", false, false, true) {
+		c.FailWrite = rapid.IntRange(1, c.MaxTTL-c.MinTTL+1).Draw(rt, "fail_write")
+		c.FailStallUs = oneOf(rt, "fail_stall_us", int64(0), 200, 2000)
+	}
 	nd := rapid.IntRange(0, 4).Draw(rt, "n_dups")
 	for i := 0; i < nd; i++ {
 		c.Dups = append(c.Dups, rapid.IntRange(0, 12).Draw(rt, fmt.Sprintf("dup%d", i)))
@@ -308,7 +338,7 @@ func TestC14(t *testing.T) {
 				early = true
 			}
 		}
-		rec.Case(scenarioKey(c), reads >= 3 && sent >= 2 && (early || len(c.Dups) > 0), c, "variant:"+c.Variant, fmt.Sprintf("real_time:%v", c.RealTime))
+		rec.Case(scenarioKey(c), reads >= 3 && sent >= 2 && (early || len(c.Dups) > 0), c, "variant:"+c.Variant, fmt.Sprintf("real_time:%v", c.RealTime), fmt.Sprintf("write_fails:%v", c.FailWrite > 0))
 		if err != nil && (len(err.Error()) > 13 && err.Error()[:13] == "harness-infra") {
 			t.Fatalf("%v", err)
 		}
